@@ -766,6 +766,9 @@ SELFTEST = [
     dict(id='removed-zone-without-reason', file='tools/tzdb/transformer.py',
          find="                        _add_reason(\n                            removed_zones, name,\n                            f\"offset in RULES '{rules_string}'\")\n",
          replace='', rule='R10'),
+    dict(id='python-table-crosses-fields', file='tools/zonedb/pygenerator.py', find="            untilMonth=era['untilMonth'],", replace="            untilMonth=era['untilDay'],", rule='R12'),
+    dict(id='python-table-holds-untruncated-offset', file='tools/zonedb/pygenerator.py', find="            offsetSeconds=era['offsetSecondsTruncated'],",
+         replace="            offsetSeconds=era['offsetSeconds'],", rule='R12'),
     dict(id='zone-notes-not-handed-on', file='tools/tzdb/transformer.py',
          find='            {k: list(v) for k, v in self.all_notable_zones.items()},', replace='            {},', rule='R11'),
     dict(id='reason-not-recorded', file='tools/tzdb/transformer.py',
